@@ -35,7 +35,8 @@ StepLayout(e) ==
         /\ Stat([layouts |-> 1, rel_ret |-> x.ret, rel_align |-> x.align, rel_baseline_shift |-> x.baseline_shift,
                  rel_multiline |-> x.multiline, rel_crlf |-> x.crlf, rel_chain |-> x.chain,
                  model_pinned_only |-> IF pin /\ ~fix THEN 1 ELSE 0, model_fixed_only |-> IF fix /\ ~pin THEN 1 ELSE 0])
-StepPanic(e) == e.ev = "panic"      \* totality is C08's business; counted by the recorder
+\* a library call of this case panicked: the property promises a result for every input of its domain
+StepPanic(e) == e.ev = "panic" /\ Report(e.case, {"library_call_panicked"}, [msg |-> e.msg, loc |-> e.loc])
 
 Next == /\ l <= NRec
         /\ LET e == Rec[l] IN StepCase(e) \/ StepLayout(e) \/ StepPanic(e)
